@@ -151,6 +151,14 @@ def one_case(arg):
         modes.append(("gitfile", gf, [sz] + argv, {}))
         modes.append(("gitfile-subdir", os.path.join(gf, "inner"), [sz] + argv, {}))
         modes.append(("GIT_DIR+GIT_WORK_TREE", unrelated, [sz] + argv, {"GIT_DIR": gitdir, "GIT_WORK_TREE": work}))
+        # the caller switches replace references ON by command-line configuration (git -c ... sizer hands it down in
+        # GIT_CONFIG_PARAMETERS) or by environment configuration: what is measured is still the stored graph
+        modes.append(("git -c core.useReplaceRefs=true sizer", work, [G.REAL_GIT, "-c", "core.useReplaceRefs=true", "sizer"] + argv,
+                      {"PATH": bindir + ":/usr/bin:/bin"}))
+        modes.append(("GIT_CONFIG_PARAMETERS core.useReplaceRefs=true", work, [sz] + argv,
+                      {"GIT_CONFIG_PARAMETERS": "'core.useReplaceRefs=true' 'core.useReplaceRefs=true'"}))
+        modes.append(("GIT_CONFIG_COUNT core.useReplaceRefs=true", work, [sz] + argv,
+                      {"GIT_CONFIG_COUNT": "1", "GIT_CONFIG_KEY_0": "core.useReplaceRefs", "GIT_CONFIG_VALUE_0": "true"}))
         # linked worktree (created before the read-only observations; does not change objects or refs/)
         wt = os.path.join(d, "wt")
         p = gitc(work, "worktree", "add", "--detach", "--no-checkout", wt, m.commits[0].oid, check=False)
